@@ -105,13 +105,14 @@ type fakeStream struct {
 	ctx      context.Context
 	ops      []string // scripted request ops (already resolved or resolved lazily at Recv)
 	term     string   // eof | recverr
-	sendFail int      // index of the Send call that fails, -1 = none
+	sendFail int      // index of the request whose Send fails, -1 = none
 	lazy     func(i int, own []string) string
 
 	recvd    int // requests handed out
 	termSeen bool
 	sent     []*pb.SessionResponse
-	kinds    []string // classification of each Send, made when it happens
+	kinds    []string // per request: classification of its response, made when Send happens
+	extra    int      // Sends that answer no request / a request already answered
 	lines    []string // resolved op text per request
 	own      []string // ids of records produced on this stream
 	badLine  string
@@ -122,6 +123,7 @@ var errRecv = errors.New("transport: recv failed")
 var errSend = errors.New("transport: send failed")
 
 func (f *fakeStream) Recv() (*pb.SessionRequest, error) {
+	f.noResponse()
 	if f.recvd >= len(f.ops) {
 		f.termSeen = true
 		if f.term == "recverr" {
@@ -146,18 +148,29 @@ func (f *fakeStream) Recv() (*pb.SessionRequest, error) {
 }
 
 func (f *fakeStream) Send(r *pb.SessionResponse) error {
-	i := len(f.sent)
 	f.sent = append(f.sent, r)
-	// the i-th Send answers the i-th request (Stream is a synchronous Recv/handle/Send loop)
-	if i < len(f.lines) {
+	// Stream is a synchronous Recv / handle / Send loop: a Send answers the request received last
+	i := len(f.lines) - 1
+	switch {
+	case i < 0:
+		f.extra++
+	case len(f.kinds) == i:
 		f.kinds = append(f.kinds, f.classify(i, r))
-	} else {
-		f.kinds = append(f.kinds, "bad:send-without-request")
+	default:
+		f.extra++
+		f.kinds[i] = "bad:second-response"
 	}
 	if i == f.sendFail {
 		return errSend
 	}
 	return nil
+}
+
+// noResponse marks the request received last as unanswered if the handler asks for the next one
+func (f *fakeStream) noResponse() {
+	if len(f.kinds) < len(f.lines) {
+		f.kinds = append(f.kinds, "none")
+	}
 }
 
 func (f *fakeStream) SetHeader(metadata.MD) error  { return nil }
@@ -345,7 +358,7 @@ func runStream(f *fakeStream, header string) string {
 			l += " sendfail"
 		}
 		switch {
-		case i < len(f.sent):
+		case i < len(f.kinds):
 			b.WriteString(l + " => resp=" + f.kinds[i] + "\n")
 		case ret == "panic":
 			b.WriteString(l + " => resp=panic\n")
